@@ -286,15 +286,21 @@ def t_positional(T, tier):
 
 # ------------------------------------------------------------------ reverse / sort
 def t_reorder(T, tier):
-    for meth, spec in (('reverse', OM.reverse), ('sort', OM.sort)):
+    F = CS.sort_key_function('keyfn')
+    fid = CS.SORT_KEY_FUNCTIONS['keyfn']
+    cases = [('reverse', 'reverse', {}, OM.reverse)]
+    for label, kw, f, r in (('sort', {}, 0, False), ('sort(key=f)', {'key': F}, fid, False), ('sort(reverse=True)', {'reverse': True}, 0, True),
+                            ('sort(key=f,reverse=True)', {'key': F, 'reverse': True}, fid, True), ('sort(key=None,reverse=False)', {'key': None, 'reverse': False}, 0, False)):
+        cases.append((label, 'sort', kw, (lambda m, f=f, r=r: OM.sort(m, f, r))))
+    for label, meth, kw, spec in cases:
         w = _world()
 
-        def run(it, meth=meth, spec=spec):
+        def run(it, meth=meth, spec=spec, kw=kw, label=label):
             d, m = CS.sym_sdict(it, w, 'd')
-            it.ctx.witness_fn = _witness(it, m, {'op': meth})
-            it.call_method(d, meth, [])
-            it.ctx.oblige('%s/ensures.view_equals_model' % meth, OM.same(CS.view(it, d), spec(m)))
-        T.explore(w, run, meth)
+            it.ctx.witness_fn = _witness(it, m, {'op': meth, 'args': sorted(kw)})
+            it.call_method(d, meth, [], dict(kw))
+            it.ctx.oblige('%s/ensures.view_equals_model(list.%s_with_the_same_arguments)' % (label, meth), OM.same(CS.view(it, d), spec(m)))
+        T.explore(w, run, label)
 
 
 # ------------------------------------------------------------------ MetadataObject.append / extend
